@@ -1,10 +1,13 @@
 (** C02 — Queued operations survive crashes exactly once. Statement file.
     Byte level: Wal/Theorems.v (log codec).  Record level and re-application: C02/Proofs.v.
-    The whole-history statement (any sequence of crashes, appends, commits, rollbacks) is decided
-    on the implementation by the executable specification C02.Model.spec in the tie; the theorems
-    below are the facts that specification rests on (see DESIGN.md C02 for what stays partial). *)
+    Whole histories: C02/History.v is a model of the single-handle writer protocol in which every
+    call is a list of micro-operations and a crash may come at any boundary with any outcome the
+    index side and the log side allow; [C02_history_meets_spec] proves that every history of that
+    model, of any length and with any number of crashes, satisfies the executable specification
+    C02.Model.spec written from the statement.  The tie checks on every run that the events of
+    real crash runs are histories of the model ([corr_case]). *)
 From Coq Require Import List NArith Bool.
-From SL Require Import Base.Tie Base.Bytes Base.Crc32 Wal.Model Wal.Theorems Core.Model C01.Model C01.Proofs C02.Model C02.Proofs C02.Windows.
+From SL Require Import Base.Tie Base.Bytes Base.Crc32 Wal.Model Wal.Theorems Core.Model C01.Model C01.Proofs C02.Model C02.Proofs C02.Windows C02.History C02.HistoryProofs.
 Import ListNotations.
 Open Scope N_scope.
 
@@ -78,6 +81,25 @@ Theorem C02_commit_windows :
     (c = Some (contents m1) /\ (C02.Model.pending x = [] \/ C02.Model.pending x = C02.Model.pending (w_dur w) ++ ops_of tail)).
 Proof. exact commit_windows. Qed.
 
+(** Whole histories.  Whatever the model of the writer protocol can produce - any sequence of
+    writer creations, adds, deletes, commits, rollbacks, drops, reopens and compactions, cut by any
+    number of crashes, each at any micro-operation boundary of the call in flight and with any
+    outcome a crash can leave of the manifest and of the log - is allowed by the specification:
+    every recovered queue lies between the operations known to be synced and all operations issued
+    since the last commit or rollback, in order; a commit in flight shows the old contents with
+    such a queue or the new contents with the queue empty or exactly the batch; and the contents
+    after a final healthy commit are the recovered contents with the outstanding operations
+    applied once. *)
+Theorem C02_history_meets_spec : forall c : case02, corr_case c = true -> spec c = true.
+Proof. exact history_meets_spec. Qed.
+
+(** The same, step by step: along an accepted history the specification never objects and its
+    state stays related to the model's (same contents, log invariant, handle queue). *)
+Theorem C02_history_simulation : forall evs s m i,
+  R s m -> accepts m evs = true ->
+  exists s', spec_run s i evs = (None, s') /\ R s' (final_state m evs).
+Proof. exact accepts_spec. Qed.
+
 (** The unrepaired open (directory entry of a new log never fsynced) loses synced operations. *)
 Theorem C02_unfixed_entry_refuted :
   let w := fold_left wal_apply [WAppend (ROp (PAdd 0 1)); WFsync]
@@ -91,4 +113,16 @@ Example C02_nonvacuous :
   map pending (wal_crash w) = [[PAdd 0 1]; [PAdd 0 1; PDel 0]; [PAdd 0 1; PDel 0; PAdd 1 2]] /\
   spec ([ECall (NewWriter 1); ECall (AddDoc 1 1 0 1); ECall (DropWriter 1);
          ECrash (NewWriter 1) true false (Some []) (Some [PAdd 0 1])], [(0, 1)]) = true.
+Proof. vm_compute. split; reflexivity. Qed.
+
+(** the model produces histories with crashes inside commits, and refuses one that loses a synced
+    operation *)
+Example C02_history_nonvacuous :
+  corr_case ([ECall (NewWriter 1); ECall (AddDoc 1 1 0 1); ECall (AddDoc 1 2 1 2);
+              ECrash (Commit 1) false true (Some [(0, 1); (1, 2)]) (Some [PAdd 0 1; PAdd 1 2]);
+              ECall (NewWriter 1); ECall (DelDoc 1 3 0);
+              ECrash (Commit 1) false true (Some [(0, 1); (1, 2)]) (Some [PAdd 0 1; PAdd 1 2; PDel 0]);
+              ECall (NewWriter 1)], [(1, 2)]) = true /\
+  accepts m0 [ECall (NewWriter 1); ECall (AddDoc 1 1 0 1); ECall (DropWriter 1);
+              ECrash (NewWriter 1) true false (Some []) (Some [])] = false.
 Proof. vm_compute. split; reflexivity. Qed.
